@@ -45,8 +45,18 @@ def classify_under(root, mode):
             return ('exc', e)
 
 
+WEAK = [False]
+
+
 def verdict(results, want):
-    """want: class name or None (= UnknownMosFileType expected)."""
+    """want: class name or None (= UnknownMosFileType expected).  In weak mode (the C12 reading of the same
+    cells) only the exception type matters: a class, or a MosRoMgrException subclass."""
+    if WEAK[0]:
+        from mosromgr.exc import MosRoMgrException
+        for mode, (kind, val) in results.items():
+            if kind == 'exc' and not isinstance(val, MosRoMgrException):
+                return '%s-filter:escaped-%s' % (mode, type(val).__name__)
+        return None
     for mode, (kind, val) in results.items():
         if want is None:
             if not (kind == 'exc' and type(val) is UnknownMosFileType):
@@ -89,6 +99,7 @@ def base_element(tag, shape, A):
 
 def table_cell(P, A):
     """(a) the known element among decoy siblings with solver-chosen tags, any position."""
+    WEAK[0] = bool(P.get('weak'))
     tag = P['tag']
     d0, d1 = A['d0'], A['d1']
     pos = A['pos']
@@ -113,6 +124,7 @@ def table_cell(P, A):
 
 def free_tag_cell(P, A):
     """(b) a single top-level element with a solver-chosen tag: a class iff the tag is a known one."""
+    WEAK[0] = bool(P.get('weak'))
     tag = A['tag']
     root = E('mos', T('mosID', 'm'), T('messageID', '7'), E(tag, T('roID', 'r')))
     results = {m: classify_under(root, m) for m in ('ignore', 'error')}
@@ -128,6 +140,7 @@ def free_tag_cell(P, A):
 
 def ea_cell(P, A):
     """(c) roElementAction: class per the documented (operation, target item?, source item?) table."""
+    WEAK[0] = bool(P.get('weak'))
     op = OPERATIONS[A['o']]
     tshape = P['tshape']      # 'absent' | 'empty' | 's' | 's+i' | 's+ii' | 'blank-s+blank-i'
     sshape = P['sshape']      # 'absent' | 'empty' | 'ids' | 'iids' | 'stories' | 'items' | 'sid+iid'
